@@ -28,7 +28,7 @@ def one(sid):
     finally:
         shutil.rmtree(d, ignore_errors=True)
 
-with ThreadPoolExecutor(8) as ex:
+with ThreadPoolExecutor(int(os.environ.get("HPLSA_JOBS", "8"))) as ex:
     out = dict(ex.map(one, ids))
 full = json.load(open('/verif/seeded/MATRIX.json')) if sys.argv[1:] and os.path.exists('/verif/seeded/MATRIX.json') else {}
 full.update(out)
